@@ -252,8 +252,15 @@ fn nonlocal_value(rng: &mut Rng, cap: &str, pre: &mut Vec<GStmt>) -> (GExpr, &'s
 /// Build the statements that break `rule`. Returns (statements, variant name, needs global).
 fn violation(rule: Rule, rng: &mut Rng, cap: &str) -> (Vec<GStmt>, &'static str, bool) {
     match rule {
-        Rule::UndefinedVariable => match rng.below(6) {
+        Rule::UndefinedVariable => match rng.below(12) {
             0 => (vec![print_(GExpr::var("zq_undefined"))], "plain_use", false),
+            // every expression position of every statement form is checked
+            6 => (vec![s(StmtKind::Node(GVar::u("zq_n"))), s(StmtKind::Edge(GExpr::var("zq_n"), GExpr::var("zq_undefined")))], "edge_sink", false),
+            7 => (vec![s(StmtKind::Node(GVar::u("zq_n"))), s(StmtKind::Edge(GExpr::var("zq_undefined"), GExpr::var("zq_n")))], "edge_source", false),
+            8 => (vec![s(StmtKind::Node(GVar::u("zq_n"))), s(StmtKind::Edge(GExpr::var("zq_n"), GExpr::var("zq_n"))), s(StmtKind::AttrEdge(GExpr::var("zq_n"), GExpr::var("zq_undefined"), vec![GAttr { name: "k".into(), value: Some(GExpr::Int(1)) }]))], "edge_attribute_sink", false),
+            9 => (vec![s(StmtKind::Node(GVar::u("zq_n"))), s(StmtKind::Edge(GExpr::var("zq_n"), GExpr::var("zq_n"))), s(StmtKind::AttrEdge(GExpr::var("zq_undefined"), GExpr::var("zq_n"), vec![GAttr { name: "k".into(), value: Some(GExpr::Int(1)) }]))], "edge_attribute_source", false),
+            10 => (vec![s(StmtKind::AttrNode(GExpr::var("zq_undefined"), vec![GAttr { name: "k".into(), value: Some(GExpr::Int(1)) }]))], "node_attribute_target", false),
+            11 => (vec![s(StmtKind::Node(GVar::u("zq_n"))), s(StmtKind::Edge(GExpr::var("zq_n"), GExpr::var("zq_n"))), s(StmtKind::AttrEdge(GExpr::var("zq_n"), GExpr::var("zq_n"), vec![GAttr { name: "k".into(), value: Some(GExpr::Int(1)) }, GAttr { name: "l".into(), value: Some(GExpr::var("zq_undefined")) }]))], "edge_attribute_value", false),
             1 => (vec![if_(cond(CondKind::Bool, GExpr::True), vec![let_("zq_inner", GExpr::Int(1))]), print_(GExpr::var("zq_inner"))], "use_after_if_block", false),
             2 => (vec![for_("zq_x", GExpr::List(vec![GExpr::Int(1)]), vec![]), print_(GExpr::var("zq_x"))], "loop_variable_after_loop", false),
             3 => (vec![let_("zq_l", lcomp(GExpr::var("zq_y"), "zq_y", GExpr::List(vec![]))), print_(GExpr::var("zq_y"))], "comprehension_variable_outside", false),
@@ -288,8 +295,11 @@ fn violation(rule: Rule, rng: &mut Rng, cap: &str) -> (Vec<GStmt>, &'static str,
         },
         Rule::DuplicateGlobal => (vec![], "second_declaration", true),
         Rule::UnusedCapture => (vec![], "extra_stanza", false),
-        Rule::UndefinedCapture => match rng.below(3) {
+        Rule::UndefinedCapture => match rng.below(6) {
             0 => (vec![print_(GExpr::cap("zq_nocap"))], "plain", false),
+            3 => (vec![s(StmtKind::Node(GVar::u("zq_n"))), s(StmtKind::Edge(GExpr::var("zq_n"), GExpr::var("zq_n"))), s(StmtKind::AttrEdge(GExpr::var("zq_n"), GExpr::scoped(GExpr::cap("zq_nocap"), "v"), vec![GAttr { name: "k".into(), value: Some(GExpr::Int(1)) }]))], "edge_attribute_sink", false),
+            4 => (vec![s(StmtKind::Node(GVar::u("zq_n"))), s(StmtKind::Edge(GExpr::var("zq_n"), GExpr::scoped(GExpr::cap("zq_nocap"), "v")))], "edge_sink", false),
+            5 => (vec![s(StmtKind::Node(GVar::u("zq_n"))), s(StmtKind::AttrNode(GExpr::var("zq_n"), vec![GAttr { name: "k".into(), value: Some(GExpr::cap("zq_nocap")) }]))], "attribute_value", false),
             1 => (vec![let_("zq_l", GExpr::List(vec![GExpr::call("source-text", vec![GExpr::cap("zq_nocap")])]))], "nested_in_call", false),
             _ => (vec![s(StmtKind::Node(GVar::s(GExpr::cap("zq_nocap"), "v")))], "as_scope", false),
         },
